@@ -3,7 +3,7 @@ independent."""
 import copy
 
 from vivarium.core.engine import Engine
-from vivarium.core.process import Process
+from vivarium.core.process import Process, Step
 from vivarium.core.registry import (
     divider_registry, divide_set, divide_zero, divide_set_value,
     divide_split_dict, divide_null)
@@ -118,6 +118,17 @@ def schema():
 class Holder(Process):
     def ports_schema(self):
         return schema()
+
+    def next_update(self, timestep, states):
+        return {}
+
+
+class HolderStep(Step):
+    """a step inside the mother (copied to the daughters when they list no
+    processes of their own)"""
+
+    def ports_schema(self):
+        return {'s': {'set': {'_default': 0}}}
 
     def next_update(self, timestep, states):
         return {}
@@ -284,8 +295,19 @@ def part_store(ctx, cfg):
                      'agents': {'m': {'holder': {'s': ('s',)}}}})
     init = nest({'agents': {'m': mother_state},
                  'outside': {'w': vals['other']}})
+    kwargs = {}
+    hstep = None
+    if cfg['copied']:
+        # the mother also holds a step: the daughters get copies of it
+        hstep = HolderStep()
+        kwargs = dict(steps=nest({'agents': {'m': {'hs': hstep}}}),
+                      flow=nest({'agents': {'m': {'hs': []}}}))
+        t = topology
+        for seg in pre:
+            t = t[seg]
+        t['agents']['m']['hs'] = {'s': ('s',)}
     e = Engine(processes=processes, topology=topology, initial_state=init,
-               emitter='null', display_info=False)
+               emitter='null', display_info=False, **kwargs)
     mother_ids = {id(holder)}
     e.update(1)
     root = get(e.state.get_value(), pre)
@@ -355,6 +377,14 @@ def part_store(ctx, cfg):
              if not n.inner and isinstance(n.value, Holder)}
     p0 = procs.get(pre + ('agents', 'm0', 'holder'))
     p1 = procs.get(pre + ('agents', 'm1', 'holder'))
+    if hstep is not None:
+        hs = {p: n.value for p, n in nodes.items()
+              if not n.inner and isinstance(n.value, HolderStep)}
+        h0 = hs.get(pre + ('agents', 'm0', 'hs'))
+        h1 = hs.get(pre + ('agents', 'm1', 'hs'))
+        ctx.claim('C11.processes', h0 is not None and h1 is not None
+                  and h0 is not h1 and h0 is not hstep and h1 is not hstep,
+                  sig='steps-copied', info=info)
     ctx.claim('C11.processes', p0 is not None and p1 is not None
               and p0 is not p1 and id(p0) not in mother_ids
               and id(p1) not in mother_ids, sig='processes', info=info)
